@@ -56,9 +56,14 @@ def B(x):
 
 S = z3.StringSort()
 F_hmac = z3.Function('hmac_sha256', S, S, S)
-F_b16e = z3.Function('b16encode', S, S)
 F_b16d = z3.Function('b16decode', S, S)
 F_hex = z3.Function('b2a_hex', S, S)
+F_upper = z3.Function('ascii_upper', S, S)
+
+
+def F_b16e(x):
+    """base64.b16encode(x) is, by definition, the upper-case form of binascii.hexlify(x)"""
+    return F_upper(F_hex(x))
 K_S2C = "Tor safe cookie authentication server-to-controller hash"
 K_C2S = "Tor safe cookie authentication controller-to-server hash"
 METHODS = ('SAFECOOKIE', 'COOKIE', 'HASHEDPASSWORD', 'NULL')
@@ -213,6 +218,8 @@ class Models04(StateModels):
         if name == 'encode' and len(args) == 1 and concrete_of(args[0]) == (True, 'latin-1'):
             self.assumptions.add('the unescaped cookie path has only code points < 256 (ASCII line + octal escapes): latin-1 encoding is the identity on them')
             return [(path, VBytes(s.t))]
+        if name == 'upper' and not args and not concrete_of(s)[0] and s.t.decl().name() in ('b2a_hex',):
+            return [(path, type(s)(F_upper(s.t)))]      # hexlify(x).upper() == b16encode(x)
         if name == 'replace' and len(args) == 2 and concrete_of(args[0]) == (True, ' ') and concrete_of(args[1]) == (True, '\n'):
             return [(path, VStr(z3.String('reply_fields')))]      # only handed to parse_keywords (contract)
         return StateModels.str_method(self, ex, path, s, name, args, kw)
